@@ -42,9 +42,7 @@ def _mk(ctx, cname, sk):
 
     g = gen.build(ctx, sk)
     P = g.problem
-    res = compfam.run_compiler(cname, P)
-    if res is None:
-        ctx.assume(False)
+    res = compfam.compile_or_prune(ctx, cname, P)
     Pc = res.problem
     Ro, Rc = Ref(P, name="o."), Ref(Pc, name="c.")
     tab = tv.table(Rc, Ro, res, g.env)
